@@ -6,7 +6,7 @@ use crate::functions::contains;
 macro_rules! harness {
     ($name:ident, $body:expr) => {
         #[kani::proof]
-        #[kani::unwind(13)]
+        #[kani::unwind(5)]
         #[kani::stub(crate::parser::parse_value, no_parse_value)]
         #[kani::stub(crate::de::from_slice, no_from_slice)]
         #[kani::stub(std::ptr::drop_in_place, noop_drop)]
@@ -175,7 +175,7 @@ harness!(c12_nested_3, split2(3, 3, |i, j| nested(3, i, j)));
 //@ bounds: 2/2/1 elements
 //@ stubs: parse_value, from_slice -> panic | drop_in_place -> no-op
 #[kani::proof]
-#[kani::unwind(13)]
+#[kani::unwind(5)]
 #[kani::stub(crate::parser::parse_value, no_parse_value)]
 #[kani::stub(crate::de::from_slice, no_from_slice)]
 #[kani::stub(std::ptr::drop_in_place, noop_drop)]
@@ -196,7 +196,7 @@ fn c12_transitive() {
 //@ desc: vacuity twin: an array claimed never to contain a number — must be refuted
 //@ fns: contains
 #[kani::proof]
-#[kani::unwind(13)]
+#[kani::unwind(5)]
 #[kani::stub(crate::parser::parse_value, no_parse_value)]
 #[kani::stub(crate::de::from_slice, no_from_slice)]
 #[kani::stub(std::ptr::drop_in_place, noop_drop)]
